@@ -21,7 +21,7 @@ parsed: `CidrSel`. (Calling `AddRule` directly with an unparsable cidr is outsid
 Core Lean only.
 -/
 import Nebula.Base.Net
-import Nebula.Gen.Firewall
+import Nebula.Gen.PktFirewall
 
 namespace Nebula.Fw
 open Nebula.Net
